@@ -7,15 +7,22 @@ REDUCED = dict(
     polish=['a', 'b', 'F', 'G', 'm', 'n', 'x', 'y', 'N', 'K', 'M', 'S', 'V', 'I', 'J', '1', '0', ' ', '?', '('],
     standard=['A', 'B', 'F', 'G', 'a', 'b', 'x', 'y', '~', '&', 'V', 'P', 'X', 'L', '=', '!', '(', ')', '1', '0', ' ', '?'])
 
+HARD_SECONDS = 3
+
 def real_parse(notation, text, preds=None, auto=True):
     """-> ('ok', ast, preds_after) | ('error', 'ParseError') | ('exception', TypeName)"""
     from pytableaux.lang import Parser, Predicates, Predicate
     from pytableaux.errors import ParseError
     store = Predicates([Predicate(i, s, a) for (i, s), a in (preds or {}).items()])
     p = Parser(notation, store, auto_preds=auto)
+    from pyvc.par import hard_timeout, HardTimeout
+    guard = None
     try:
-        s = p(text)
+        with hard_timeout(HARD_SECONDS) as guard: s = p(text)        # a changed tree may not return (scan-ahead loops)
+    except HardTimeout:
+        return ('exception', 'does-not-return', {})
     except ParseError:
+        if guard is not None and guard.fired: return ('exception', 'does-not-return', {})      # the parser's own __exit__ replaced the alarm
         return ('error', 'ParseError', {tuple(q.bicoords): q.arity for q in p.predicates if not q.is_system})
     except RecursionError:
         return ('exception', 'RecursionError', {})
